@@ -362,6 +362,13 @@ def hotspotEquiv (o n : Rec) : Bool :=
   && gi o 6 = gi n 6 && gi o 9 = gi n 9 && mapDeepEq (gm o 11) (gm n 11)
   && (if gi o 3 = 0 then gi o 8 = gi n 8 else if gi o 3 = 1 then gi o 7 = gi n 7 else false)
 
+def flowReusable (o n : Rec) : Bool :=
+  gs o 1 = gs n 1 && gi o 5 = gi n 5 && gs o 6 = gs n 6 && gi o 10 = gi n 10
+  && (gi o 2 = 1 || gi o 3 = 0) && (gi n 2 = 1 || gi n 3 = 0)
+
+def hotspotReusable (o n : Rec) : Bool :=
+  gs o 1 = gs n 1 && gi o 3 = gi n 3 && gi o 10 = gi n 10 && gi o 9 = gi n 9 && gi o 2 = gi n 2
+
 structure ModDef where
   name : String
   tags : List Tag
@@ -370,11 +377,11 @@ structure ModDef where
   unknown : Rec → Bool := fun _ => false
 
 def modDefs : List ModDef := [
-  { name := "flow", tags := flowTags, mo := { valid := flowValid, norm := flowNorm, equiv := flowEquiv }, unknown := flowUnknown },
+  { name := "flow", tags := flowTags, mo := { valid := flowValid, norm := flowNorm, equiv := flowEquiv, reusable := flowReusable }, unknown := flowUnknown },
   { name := "system", tags := systemTags, mo := { valid := systemValid } },
   { name := "cb", tags := cbTags, mo := { valid := cbValid } },
   { name := "isolation", tags := isolationTags, mo := { valid := isolationValid } },
-  { name := "hotspot", tags := hotspotTags, mo := { valid := hotspotValid, equiv := hotspotEquiv }, hotspot := true }]
+  { name := "hotspot", tags := hotspotTags, mo := { valid := hotspotValid, equiv := hotspotEquiv, reusable := hotspotReusable }, hotspot := true }]
 
 def findMod (n : String) : Option ModDef := modDefs.find? (·.name = n)
 
